@@ -1,7 +1,8 @@
 """C18 - the poller pool always hands out a running poller of the configured size.
 Theorems: lean/Netpoll/Props/C18.lean (model lean/Netpoll/Manager.lean, invariant lean/Netpoll/ManagerLemmas.lean).
 Tie: T-gen (status enum + step fingerprints of Pick/Run/Close/Reset/Set*/balancers, lean/Netpoll/Tie/Manager.lean)
-   + T-sched (one-actor-at-a-time scheduler over the vmgrPoint schedule points of hooks/manager.patch, trace
+   + T-sched (one-actor-at-a-time scheduler over the vmgrPoint schedule points of hooks/manager.patch; those of Pick placed
+     semantically by tools/mgrpoints: before every atomic operation on the status word; trace
      conformance of every step against Netpoll.Manager.step) + T-diff of sequential calls + seeded stress,
      all judged by the Lean spec oracle (npdriver mgrspec)."""
 import glob, json, os, shutil
@@ -22,8 +23,10 @@ MANIFEST = dict(
          'with liveness probes of the real pollers and a descriptor census; the Lean spec oracle judges the implementation\'s replies directly.',
     note='Trusted: Lean kernel; axioms propext/Classical.choice/Quot.sound; extractor; harness, scheduler and line protocol. Correspondence is sampling '
          '(evidence lists sites and schedules exercised). Schedule points are add-only vmgrPoint lines applied from hooks/manager.patch to a temporary copy of '
-         'poll_manager.go/poll_loadbalance.go at build time (no commit in /repo); if the patch no longer applies the check falls back to stress + sequential '
-         'differential with an escalated budget (evidence field sched_mode says which ran). Assumed, with Lean witnesses of what happens otherwise: '
+         'poll_manager.go/poll_loadbalance.go at build time (no commit in /repo); the points of manager.Pick are then (re)placed by tools/mgrpoints by what the statements do - one in front of every '
+         'sync/atomic operation on the status word (load, the two CAS, any other write = site stw) - so that an edited Pick can still be preempted between any two of its accesses; '
+         'if the patched copies do not compile the check falls back to stress + sequential differential with an escalated budget (evidence field sched_mode says which ran). '
+         'Every second stress phase releases up to GOMAXPROCS/2 of its pickers from a spinning barrier (they call Pick directly), the others from a channel barrier. Assumed, with Lean witnesses of what happens otherwise: '
          'A-open-ok for the claims about what Pick returns (when openPoll fails Run closes every poller, the old pool and the ones it had just opened, '
          'and leaves a closed manager: no slice, numLoops 0, no balancer; Pick cannot report the error and panics on the nil balancer until SetLoadBalance '
          'and SetNumLoops are called again; that nothing is left open is required by the spec oracle after every injected failure), '
@@ -261,7 +264,8 @@ def replay(rep, path):
     for p in r['problems']:
         print('REPLAY: %s: %s' % (p[2], p[3]))
     if r['problems']:
-        rep.violation('replay reproduces: ' + r['problems'][0][3], lines, no_input=r['problems'][0][2] != 'impl-violates-spec')
+        first = next((p for p in r['problems'] if p[2] == 'impl-violates-spec'), r['problems'][0])   # a spec violation later in the scenario outranks the model difference before it
+        rep.violation('replay reproduces: ' + first[3], lines, no_input=first[2] != 'impl-violates-spec')
     else:
         print('REPLAY: no disagreement (%d lines)' % r['lines'])
     return rep.finish(LEVEL)
